@@ -68,6 +68,8 @@ def residues(ip, st, lin, m, budget=None, folded=frozenset()):
             continue
         for r, info in enumerate(ip.tab.info):
             d = info["def"]
+            if d and d[0] == "and" and isinstance(d[1], Lin) and isinstance(d[2], int) and d[2] >= 0 and (d[2] & (d[2] + 1)) == 0:
+                d = ("rem", d[1], d[2] + 1)
             if d and d[0] == "rem" and isinstance(d[1], Lin) and isinstance(d[2], int) and d[2] % m == 0:
                 c = d[1].coef(s)
                 if c and a % c == 0 and all(st.values(x) is not None or x == s for x, _ in d[1].t):
